@@ -187,7 +187,7 @@ SEP_FORMATS = [
     (None, BAR, BAR, "on", 0, True),
     (BAR + "{n:^4_block}" + BAR, BAR, BAR, "block", 0, True),
     (":{n:>5}:", ":", ":", "on", 0, True),
-    (" {n:<3_every-3} | ", " ", " | ", "every", 3, True),
+    ("~{n:<3_every-3} | ", "~", " | ", "every", 3, True),
     ("none", "", BAR, "on", 0, False),
 ]
 PALETTE_POOL = ["#010203", "#aabbcc", "#123456", "#fedcba", "#0000ff", "#00ff00", "#ff0000", "#777777"]
@@ -264,6 +264,11 @@ def check_rows(items, rows, conf, distinct_palette=True):
             break
         text, bgs = rows[i]
         a = it["attr"]
+        if text == it["raw"]:
+            # the line was not recognised as a blame line at all: it is passed through as it came
+            bad.append(("unhandled-line", i, dict(row=text)))
+            colours.append(("raw", i))
+            continue
         code = expand_tabs(it["code"], tab)
         # --- code intact: the row ends with the code
         if not text.endswith(code):
@@ -309,11 +314,16 @@ def check_rows(items, rows, conf, distinct_palette=True):
                         bad.append(("attribution-" + name, i, dict(row=text, want=w, meta=meta)))
         # --- colour of the row: background of the metadata column (all of head, and the code)
         c = hbg[0] if hbg else (bgs[0] if bgs else None)
+        if it.get("git"):
+            # git coloured this line itself (blame.coloring / --color-lines): delta keeps that style;
+            # the palette rules do not speak about such rows
+            colours.append(("git", i))
+            continue
         if any(b != c for b in bgs):
             bad.append(("one-colour-per-row", i, dict(row=text, bgs=sorted(set(map(str, bgs))))))
         if c is None:
             bad.append(("has-background", i, dict(row=text)))
-        if i > 0 and len(colours) == i:
+        if i > 0 and len(colours) == i and not (isinstance(colours[i - 1], tuple) and colours[i - 1][0] == "git"):
             pc = colours[i - 1]
             if prev_same and c != pc:
                 bad.append(("same-attribution-same-colour", i, dict(prev=str(pc), this=str(c))))
@@ -344,6 +354,26 @@ class ImplInfo:
 
     def key(self, args):
         return tuple(args)
+
+
+def pool_texts():
+    return AUTHORS_CLEAN + AUTHORS_ACCENT + AUTHORS_WIDE + AUTHORS_ONE + CODE_WORDS + [f for f in FILES if f] + [BAR] + \
+        [f for f in BLAME_FORMATS if f] + [s[0] for s in SEP_FORMATS if s[0]]
+
+
+def cfg_data(hook):
+    """{(blame format, separator format): (format items field, separator field)} as parsed by the
+    implementation (`parse_line_number_format`, `parse_blame_line_numbers`); one hook process."""
+    pairs = [(f, s[0]) for f in BLAME_FORMATS for s in SEP_FORMATS]
+    reqs, sticky = [], []
+    for f, sp in pairs:
+        sticky.append(len(reqs))
+        reqs += [cfg_line(cfg_args(None, f, sp)), "blame.format_data", "blame.sep_data"]
+    resp = hook.ask(reqs, sticky=sticky)
+    out = {}
+    for n, pr in enumerate(pairs):
+        out[pr] = (" ".join(resp[3 * n + 1].split()[1:]), resp[3 * n + 2].split()[1])
+    return out
 
 
 def char_widths(hook, texts):
@@ -404,7 +434,7 @@ def near_valid_lines(rng, n):
     return out
 
 
-def part_parse(ctx, rep, hook, mdl):
+def part_parse(ctx, rep, hook, mdl, widths, cdata):
     rng = ctx.rng
     lines = near_valid_lines(rng, ctx.n(1500, 40000))
     lines += ["", " ", "abcd1234 (X 2021-08-22 18:20:19 -0700 1) code",
@@ -428,6 +458,8 @@ def part_parse(ctx, rep, hook, mdl):
             a.file = None
         n = rng.choice([0, 1, 9, 10, 120, 99999, 2 ** 63, 2 ** 64 - 1])
         code = gen_code(rng)
+        while has_lookalike(code):
+            code = gen_code(rng)
         wf.append((a, n, code, blame_line(a, n, code, rng.choice([1, 2, 9]), rng.choice([1, 2, 4]))))
     impl = hook.ask([cfg_line([])] + ["blame.parse " + hx(w[3]) for w in wf], sticky=[0])[1:]
     for (a, n, code, line), i in zip(wf, impl):
@@ -468,9 +500,26 @@ def strip_sgr(s):
     return CSI.sub("", s)
 
 
-def part_hook(ctx, rep, hook, mdl):
+def batched(proc, groups):
+    """groups: [(cfg args | None, [requests])] -> [[responses]] using a single process run
+    (restarted only after a request that kills it)."""
+    reqs, sticky, spans = [], [], []
+    for args, rs in groups:
+        if args is not None:
+            sticky.append(len(reqs))
+            reqs.append(cfg_line(args))
+        spans.append((len(reqs), len(reqs) + len(rs)))
+        reqs += rs
+    if not reqs:
+        return [[] for _ in groups]
+    resp = proc.ask(reqs, sticky=sticky)
+    return [resp[a:b] for a, b in spans]
+
+
+def part_hook(ctx, rep, hook, mdl, widths, cdata):
     rng = ctx.rng
-    # ---- metadata / number formatting
+    cwf = cw_field(widths)
+    # ---- metadata formatting
     metas = []
     for fmt in BLAME_FORMATS:
         args = cfg_args(None, fmt, None)
@@ -479,115 +528,118 @@ def part_hook(ctx, rep, hook, mdl):
             a = Attr(gen_commit(rng), rng.choice(AUTHORS_CLEAN + AUTHORS_ACCENT + AUTHORS_WIDE), gen_ts(rng))
             lines.append(blame_line(a, rng.randint(1, 500), " x"))
         metas.append((args, lines))
-    for args, lines in metas:
-        reqs = [cfg_line(args), "blame.format_data"] + ["blame.parse " + hx(l) for l in lines] + \
-               ["blame.meta " + hx(l) for l in lines]
-        resp = hook.ask(reqs, sticky=[0])
-        items_f = " ".join(resp[1].split()[1:])
-        parses, ms = resp[2:2 + len(lines)], resp[2 + len(lines):]
-        widths = char_widths(hook, lines)
-        mreqs, keep = [], []
-        for l, p, m in zip(lines, parses, ms):
-            f = p.split()
+    resp = batched(hook, [(args, ["blame.format_data"] + ["blame.parse " + hx(l) for l in lines] +
+                           ["blame.meta " + hx(l) for l in lines]) for args, lines in metas])
+    mreqs, keep = [], []
+    for (args, lines), r in zip(metas, resp):
+        items_f = " ".join(r[0].split()[1:])
+        parses, ms = r[1:1 + len(lines)], r[1 + len(lines):]
+        for l, pr, m in zip(lines, parses, ms):
+            f = pr.split()
             if len(f) != 6:
                 continue
-            mreqs.append("blame.meta %s %s %s %s %s" % (cw_field(widths), items_f, f[3], f[2], f[1]))
-            keep.append((l, m))
-        model = mdl.ask(mreqs) if mdl else [None] * len(mreqs)
-        for (l, i), m, q in zip(keep, model, mreqs):
-            # the implementation answers `ok <meta> <width> <ts>`; compare meta and width
-            ic = " ".join(i.split()[:3]) if i.startswith("ok") else i
-            rep.case(key=("meta", tuple(args), l), nontrivial=True,
-                     sample=dict(op="blame.meta", args=args, line=l, impl=i))
-            rep.count("meta:" + ("panic" if is_panic(i) else "ok"))
-            if m is not None:
-                rep.corr_case("blame.meta", same_resp(ic, m), dict(op="blame.meta", args=args, line=l, impl=i, model=m, req=q))
-            if is_panic(i):
-                feats = line_features(dict(attr=Attr("", l.split("(", 1)[1].split("  ")[0] if "(" in l else "", ""), n=0, code="", git=False))
-                rep.violation("panic:blame.rs:format_blame_metadata:" + ("wide-author" if widths else "narrow"),
-                              "format_blame_metadata panics (usize subtraction: chars().count() - display width)",
-                              dict(kind="hook", cfg=args, req="blame.meta " + hx(l), line=l, got=i))
-    for sepf, *_ in SEP_FORMATS + [("{n:<6_every-2}|", 0, 0, 0, 0, 0), ("<{n}>", 0, 0, 0, 0, 0), ("{n:>2}", 0, 0, 0, 0, 0)]:
-        args = cfg_args(None, None, sepf)
+            mreqs.append("blame.meta %s %s %s %s %s" % (cwf, items_f, f[3], f[2], f[1]))
+            keep.append((args, l, m))
+    model = mdl.ask(mreqs) if mdl else [None] * len(mreqs)
+    for (args, l, i), m, q in zip(keep, model, mreqs):
+        # the implementation answers `ok <meta> <width> <ts>`; compare meta and width
+        ic = " ".join(i.split()[:3]) if i.startswith("ok") else i
+        rep.case(key=("meta", tuple(args), l), nontrivial=True, sample=dict(op="blame.meta", args=args, line=l, impl=i))
+        rep.count("meta:" + ("panic" if is_panic(i) else "ok"))
+        if m is not None:
+            rep.corr_case("blame.meta", same_resp(ic, m), dict(op="blame.meta", args=args, line=l, impl=i, model=m, req=q))
+        if is_panic(i):
+            wide = any(widths.get(ord(c), 1) > 1 for c in l)
+            rep.violation("panic:blame.rs:format_blame_metadata:" + ("wide-author" if wide else "clean"),
+                          "format_blame_metadata panics (usize subtraction: chars().count() - display width)",
+                          dict(kind="hook", cfg=args, req="blame.meta " + hx(l), line=l, got=i))
+    # ---- line number formatting
+    seps = [s[0] for s in SEP_FORMATS] + ["{n:<6_every-2}|", "<{n}>", "{n:>2}", "{n:^7}", "{n:^6_block}"]
+    numjobs = []
+    for sepf in seps:
         nums = [(rng.choice([0, 1, 5, 9, 10, 42, 99, 100, 999, 1000, 9999, 10000, 123456, rng.randint(0, 10 ** 7)]),
                  rng.randint(0, 1)) for _ in range(ctx.n(30, 300))]
-        resp = hook.ask([cfg_line(args), "blame.sep_data"] + ["blame.number %d %d" % nr for nr in nums], sticky=[0])
-        sep_f = resp[1].split()[1]
-        mreqs = ["blame.number %s %d %d" % (sep_f, n, r) for n, r in nums]
-        model = mdl.ask(mreqs) if mdl else [None] * len(mreqs)
-        for (n, r), i, m in zip(nums, resp[2:], model):
-            rep.case(key=("number", sepf, n, r), nontrivial=True, sample=dict(op="blame.number", sep=sepf, n=n, repeat=r, impl=i))
+        numjobs.append((cfg_args(None, None, sepf), sepf, nums))
+    resp = batched(hook, [(args, ["blame.sep_data"] + ["blame.number %d %d" % nr for nr in nums]) for args, _, nums in numjobs])
+    mreqs = []
+    for (args, sepf, nums), r in zip(numjobs, resp):
+        sep_f = r[0].split()[1]
+        mreqs += ["blame.number %s %d %d" % (sep_f, n, rr) for n, rr in nums]
+    model = iter(mdl.ask(mreqs) if mdl else [None] * len(mreqs))
+    for (args, sepf, nums), r in zip(numjobs, resp):
+        for (n, rr), i in zip(nums, r[1:]):
+            m = next(model)
+            rep.case(key=("number", sepf, n, rr), nontrivial=True, sample=dict(op="blame.number", sep=sepf, n=n, repeat=rr, impl=i))
             if m is not None:
-                rep.corr_case("blame.number", same_resp(i, m), dict(op="blame.number", sep=sepf, n=n, repeat=r, impl=i, model=m))
+                rep.corr_case("blame.number", same_resp(i, m), dict(op="blame.number", sep=sepf, n=n, repeat=rr, impl=i, model=m))
             # oracle: the number is there unless blanking is allowed
             f = i.split()
             if len(f) == 4 and sepf != "none":
                 shown = unx(f[2]).strip()
-                if shown != str(n) and not (shown == "" and r == 1 and ("block" in (sepf or "") or "every" in (sepf or ""))):
-                    rep.violation("hook:line-number", "format_blame_line_number loses the number",
-                                  dict(kind="hook", cfg=args, req="blame.number %d %d" % (n, r), got=i))
+                if shown != str(n) and not (shown == "" and rr == 1 and ("block" in (sepf or "") or "every" in (sepf or ""))):
+                    rep.violation("hook:line-number:clean", "format_blame_line_number loses the number",
+                                  dict(kind="hook", cfg=args, req="blame.number %d %d" % (n, rr), got=i))
 
     # ---- colour histories over abstract keys, through the real handle_blame_line
     attrs3 = [Attr("aaaaaaa1", "Dan Davison", "2021-08-22 18:20:19 -0700"),
               Attr("bbbbbbb2", "Dan Davison", "2020-07-18 15:34:43 -0400"),
               Attr("^cccccc3", "Nicholas Marriott", "2009-06-01 22:58:49 +0000")]
-    jobs = []   # (pal, fmt, sep, hist of (attr index, git), attrs)
+    jobs = []   # (pal, fmt, sep, hist of (attr index, git), attrs, exhaustive?)
     for npal in (2, 3):
         pal = PALETTE_POOL[:npal]
         for L in range(1, ctx.n(6, 9) + 1):
             for hist in itertools.product(range(3 if L <= 6 else 2), repeat=L):
                 jobs.append((pal, "{commit}", None, [(k, False) for k in hist], attrs3, True))
     n_exh = len(jobs)
+    confs = [(rng.sample(PALETTE_POOL, rng.randint(2, 5)), rng.choice(BLAME_FORMATS), rng.choice(SEP_FORMATS)[0])
+             for _ in range(ctx.n(12, 60))]     # building a Config costs ~70 ms in the debug build
     for _ in range(ctx.n(300, 20000)):
         k = rng.randint(1, 6)
         attrs = gen_attrs(rng, k, AUTHORS_CLEAN + AUTHORS_ACCENT)
-        pal = rng.sample(PALETTE_POOL, rng.randint(2, 5))
+        pal, rfmt, rsep = rng.choice(confs)
         L = rng.randint(1, 60)
-        # runs of equal keys are common in real blame output
         hist = []
-        while len(hist) < L:
+        while len(hist) < L:       # runs of equal keys are common in real blame output
             kk = rng.randrange(k)
             hist += [(kk, False)] * rng.choice([1, 1, 2, 3, 5])
-        jobs.append((pal, rng.choice(BLAME_FORMATS), rng.choice(SEP_FORMATS)[0], hist[:L], attrs, False))
-    # lines coloured by git mixed in (the delta_unreachable arms)
-    n_mixed = ctx.n(40, 400)
-    for _ in range(n_mixed):
+        jobs.append((pal, rfmt, rsep, hist[:L], attrs, False))
+    for _ in range(ctx.n(40, 400)):     # lines coloured by git mixed in (the delta_unreachable arms)
         k = rng.randint(1, 3)
         pal = PALETTE_POOL[:rng.randint(2, 3)]
-        L = rng.randint(2, 6)
-        hist = [(rng.randrange(k), rng.random() < 0.4) for _ in range(L)]
+        hist = [(rng.randrange(k), rng.random() < 0.4) for _ in range(rng.randint(2, 6))]
         jobs.append((pal, "{commit}", None, hist, attrs3, False))
-    rep.exhaustive = dict(what="key histories of <= %d lines over 3 keys (<= 6 lines) x palettes of 2 and 3 colours, "
-                               "driven through the real handle_blame_line" % ctx.n(6, 9), cases=n_exh)
-
+    rep.exhaustive = dict(what="all key histories of <= %d lines over 3 keys (2 keys beyond 6 lines) x palettes of 2 and 3 "
+                               "colours, driven through the real handle_blame_line" % ctx.n(6, 9), cases=n_exh)
     by_cfg = {}
-    for j in jobs:
-        by_cfg.setdefault((tuple(j[0]), j[1], j[2]), []).append(j)
+    for jb in jobs:
+        by_cfg.setdefault((tuple(jb[0]), jb[1], jb[2]), []).append(jb)
+    groups, meta_ = [], []
     for (pal, fmt, sepf), js in by_cfg.items():
         args = cfg_args(list(pal), fmt, sepf)
-        reqs = [cfg_line(args), "blame.format_data", "blame.sep_data"]
         streams = []
         for (_, _, _, hist, attrs, exh) in js:
             lines = []
             for n, (k, git) in enumerate(hist):
                 l = blame_line(attrs[k], n + 1, " code %d" % n if exh else gen_code(rng))
                 if git:
-                    l = "\x1b[36m" + l.split(")", 1)[0] + ")\x1b[m" + l.split(")", 1)[1] if ")" in l else l
+                    head, tail = l.split(")", 1)
+                    l = "\x1b[36m" + head + ")\x1b[m" + tail
                 lines.append((l, git))
             streams.append(lines)
-            reqs.append("blame.stream %d %s" % (len(lines), " ".join(hx(l) for l, _ in lines)))
-        resp = hook.ask(reqs, sticky=[0])
-        items_f = " ".join(resp[1].split()[1:])
-        sep_f = resp[2].split()[1]
-        widths = char_widths(hook, [l for s in streams for l, _ in s])
-        mreqs = [model_stream_req(list(pal), items_f, sep_f, 8, widths, [(strip_sgr(l), g) for l, g in lines])
-                 for lines in streams]
-        model = mdl.ask(mreqs) if mdl else [None] * len(mreqs)
-        sepinfo = [s for s in SEP_FORMATS if s[0] == sepf][0]
-        for (_, _, _, hist, attrs, exh), lines, i, m in zip(js, streams, resp[3:], model):
+        groups.append((args, ["blame.stream %d %s" % (len(ls), " ".join(hx(l) for l, _ in ls)) for ls in streams]))
+        meta_.append((pal, fmt, sepf, args, js, streams))
+    resp = batched(hook, groups)
+    mreqs = []
+    for (pal, fmt, sepf, args, js, streams), r in zip(meta_, resp):
+        items_f, sep_f = cdata[(fmt, sepf)]
+        mreqs += [model_stream_req(list(pal), items_f, sep_f, 8, widths, [(strip_sgr(l), g) for l, g in ls]) for ls in streams]
+    model = iter(mdl.ask(mreqs) if mdl else [None] * len(mreqs))
+    for (pal, fmt, sepf, args, js, streams), r in zip(meta_, resp):
+        for (_, _, _, hist, attrs, exh), lines, i in zip(js, streams, r):
+            m = next(model)
             mixed = any(g for _, g in hist)
             rep.case(key=("stream", pal, fmt, sepf, tuple(hist), tuple(l for l, _ in lines)),
-                     nontrivial=len(set(k for k, _ in hist)) >= 2 or len(hist) >= 2,
+                     nontrivial=len(hist) >= 2,
                      sample=dict(op="blame.stream", palette=list(pal), format=fmt, keys=[k for k, _ in hist], impl=i[:300]))
             rep.count("stream:" + ("exhaustive" if exh else ("mixed-git-colour" if mixed else "random")))
             rep.count("stream-lines", len(hist))
@@ -598,7 +650,7 @@ def part_hook(ctx, rep, hook, mdl):
                           lines=[l for l, _ in lines])
             if is_panic(i):
                 rep.count("stream:died")
-                sig = ("exit2:blame.rs:get_color-unreachable:git-coloured" if mixed and "delta_unreachable" not in i and "DIED 2" in i
+                sig = ("exit2:blame.rs:get_color-unreachable:git-coloured" if (mixed and i.startswith("DIED 2"))
                        else "panic:hook-stream:" + ("git-coloured" if mixed else "clean"))
                 rep.violation(sig, "handle_blame_line aborts (delta_unreachable -> exit status 2) on a stream that mixes "
                                    "lines coloured by git with uncoloured ones", replay)
@@ -606,9 +658,7 @@ def part_hook(ctx, rep, hook, mdl):
             got = hook_stream_items(i)
             if got is None or mixed:
                 continue
-            # direct oracle on the hook result: colours are palette strings here
-            items = [dict(attr=attrs[k], n=n + 1, code=lines[n][0].split(")", 1)[1] if False else None, git=False)
-                     for n, (k, _) in enumerate(hist)]
+            # direct oracle on the hook result (colours are palette strings here)
             colours, last = [], {}
             for n, ((k, _), (handled, c, row)) in enumerate(zip(hist, got)):
                 t = attrs[k].tup()
@@ -746,6 +796,8 @@ def eval_binary(ctx, rep, case, res, mdl_resp=None, model_checked=None):
                       "delta exits with status %s on a blame stream: %s" % (rc, errt[:200]), replay)
         return None
     rows = decode_output(out)
+    for it, l in zip(case["items"], lines):
+        it["raw"] = strip_sgr(l)
     distinct = True   # every palette used here has pairwise distinct colours
     bad = check_rows(case["items"], rows, dict(fmt=case["fmt"], sep=case["sep"], tab=tab), distinct)
     for rule, i, detail in bad[:3]:
@@ -754,7 +806,7 @@ def eval_binary(ctx, rep, case, res, mdl_resp=None, model_checked=None):
     return rows
 
 
-def part_binary(ctx, rep, hook, mdl):
+def part_binary(ctx, rep, hook, mdl, widths, cdata):
     import tempfile
     rng = ctx.rng
     cases = []
@@ -766,23 +818,14 @@ def part_binary(ctx, rep, hook, mdl):
     with tempfile.TemporaryDirectory(prefix="c17-", dir=BUILD) as tmp:
         results = parallel_map(lambda ic: run_binary_case(ctx, ic[1], tmp, ic[0]), list(enumerate(cases)))
     # model side: the same streams through Blame.stream, configuration data from the implementation
-    cfgs = {}
+    reqs = []
     for c in cases:
-        cfgs.setdefault((tuple(c["pal"]) if c["pal"] else None, c["fmt"], c["sep"][0], c["tab"]), []).append(c)
-    model_rows = {}
-    for (pal, fmt, sepf, tab), cs in cfgs.items():
-        args = cfg_args(list(pal) if pal else None, fmt, sepf, tab)
-        resp = hook.ask([cfg_line(args), "blame.format_data", "blame.sep_data"], sticky=[0])
-        items_f = " ".join(resp[1].split()[1:])
-        sep_f = resp[2].split()[1]
-        texts = [l for c in cs for l in case_lines(c)]
-        widths = char_widths(hook, texts)
-        mpal = list(pal) if pal else ["#000000", "#222222", "#444444"]   # dark default (no terminal to query)
-        reqs = [model_stream_req(mpal, items_f, sep_f, 8 if tab is None else tab, widths,
-                                 [(strip_sgr(l), it["git"]) for l, it in zip(case_lines(c), c["items"])]) for c in cs]
-        ans = mdl.ask(reqs) if mdl else [None] * len(reqs)
-        for c, a in zip(cs, ans):
-            model_rows[id(c)] = a
+        items_f, sep_f = cdata[(c["fmt"], c["sep"][0])]
+        mpal = list(c["pal"]) if c["pal"] else ["#000000", "#222222", "#444444"]   # dark default (no terminal to query)
+        reqs.append(model_stream_req(mpal, items_f, sep_f, 8 if c["tab"] is None else c["tab"], widths,
+                                     [(strip_sgr(l), it["git"]) for l, it in zip(case_lines(c), c["items"])]))
+    ans = mdl.ask(reqs) if mdl else [None] * len(reqs)
+    model_rows = {id(c): a for c, a in zip(cases, ans)}
     for c, res in zip(cases, results):
         rows = eval_binary(ctx, rep, c, res)
         m = model_rows.get(id(c))
@@ -835,9 +878,26 @@ def run(ctx, rep):
     if mdl is not None:
         v = mdl.ask(["blame.variant", "blame.arms_total"])
         rep.notes["model_variant"] = dict(author_mode_and_pad_arith=v[0], get_color_arms=v[1])
-    part_parse(ctx, rep, hook, mdl)
-    part_hook(ctx, rep, hook, mdl)
-    part_binary(ctx, rep, hook, mdl)
+    import time
+    widths = char_widths(hook, pool_texts())
+    cdata = cfg_data(hook)
+    seen = {}
+    orig = rep.violation
+
+    def violation(signature, what, replay):
+        # core caps the *total* number of recorded violations; keep at most two per signature
+        seen[signature] = seen.get(signature, 0) + 1
+        rep.count("oracle-failure:" + signature)
+        if seen[signature] > 2:
+            return False
+        return orig(signature, what, replay)
+    rep.violation = violation
+    t = {}
+    for name, part in (("parse", part_parse), ("hook", part_hook), ("binary", part_binary)):
+        t0 = time.time()
+        part(ctx, rep, hook, mdl, widths, cdata)
+        t[name] = round(time.time() - t0, 1)
+    rep.notes["seconds"] = t
     rep.notes["hook_restarts"] = hook.restarts
 
 
